@@ -91,6 +91,8 @@ type trackedSecret struct {
 	inside int
 	n      int
 	size   int
+	rd     io.Reader // a reader the caller keeps across other operations, part-way through the secret
+	rdPos  int
 }
 
 func runC11(t *simrt.Tape, o Opts) Outcome {
@@ -337,6 +339,42 @@ func runC11(t *simrt.Tape, o Opts) Outcome {
 					})
 					idleCheck(ts, "after WithBytesFunc returned")
 				case 3:
+					if kind := t.Choose(3, "reader.kind"); kind != 0 {
+						// a reader the caller keeps: it reads the secret in pieces, other operations (a Close
+						// among them) come in between; every piece opens the pages anew, so after Close the
+						// next piece is an error and delivers nothing
+						if ts.rd == nil {
+							ts.rd, ts.rdPos = ts.sec.NewReader(), 0
+						}
+						buf := make([]byte, 1+ts.size/3)
+						prog = append(prog, fmt.Sprintf("s%d.Reader.Read(%d bytes, at offset %d)", ts.n, len(buf), ts.rdPos))
+						guard("Reader", func() {
+							n, err := ts.rd.Read(buf)
+							if ts.closed {
+								if err == nil || err == io.EOF || n > 0 {
+									violate("reader-after-close/"+im.name, "%s: a reader obtained before Close delivered %d bytes (err=%v) from offset %d after the secret was closed; after %v", im.name, n, err, ts.rdPos, prog)
+								}
+								return
+							}
+							if err != nil && err != io.EOF {
+								violate("reader-failed/"+im.name, "%s: reader failed on a live secret: %v", im.name, err)
+								return
+							}
+							if ts.want != nil && !bytes.Equal(buf[:n], ts.want[ts.rdPos:min(ts.rdPos+n, len(ts.want))]) {
+								violate("wrong-bytes/"+im.name, "%s: a piecewise reader returned other bytes at offset %d", im.name, ts.rdPos)
+								return
+							}
+							ts.rdPos += n
+							if (err == io.EOF) != (ts.rdPos >= ts.size) && n > 0 {
+								violate("reader-eof/"+im.name, "%s: a piecewise reader at offset %d of %d returned err=%v", im.name, ts.rdPos, ts.size, err)
+							}
+							if err == io.EOF {
+								ts.rd = nil
+							}
+						})
+						idleCheck(ts, "after a piecewise read")
+						continue
+					}
 					prog = append(prog, fmt.Sprintf("s%d.Reader.ReadAll", ts.n))
 					guard("Reader", func() {
 						got, err := io.ReadAll(ts.sec.NewReader())
@@ -477,7 +515,7 @@ func runC11(t *simrt.Tape, o Opts) Outcome {
 			out.Viols = append(out.Viols, world.Violation{Prop: "C11", Rule: "deadlock", Signature: "C11/deadlock/" + implName, Msg: fmt.Sprintf("%s: readers and closers are all blocked: %s; program %v", implName, f.Msg, prog)})
 		case simrt.FailPanic:
 			out.Infra = nil
-			out.Viols = append(out.Viols, world.Violation{Prop: "C11", Rule: "panic", Signature: "C11/goroutine-panic/" + implName, Msg: f.Msg + "\n" + f.Stack})
+			out.Viols = append(out.Viols, world.Violation{Prop: "C11", Rule: "panic", Signature: "C11/" + panicKind(f.Msg) + "/" + implName, Msg: f.Msg + "\n" + f.Stack})
 		}
 	}
 	return out
@@ -945,7 +983,7 @@ func runC12(t *simrt.Tape, o Opts) Outcome {
 			out.Viols = append(out.Viols, world.Violation{Prop: "C12", Rule: "deadlock", Signature: "C12/deadlock/" + implName, Msg: f.Msg})
 		case simrt.FailPanic:
 			out.Infra = nil
-			out.Viols = append(out.Viols, world.Violation{Prop: "C12", Rule: "panic", Signature: "C12/goroutine-panic/" + implName, Msg: f.Msg + "\n" + f.Stack})
+			out.Viols = append(out.Viols, world.Violation{Prop: "C12", Rule: "panic", Signature: "C12/" + panicKind(f.Msg) + "/" + implName, Msg: f.Msg + "\n" + f.Stack})
 		}
 	}
 	return out
